@@ -540,6 +540,13 @@ func dtBuildWork(c *Ctx, visit dtVisit) []dtWork {
 	}
 	chunked(len(sdDays), 8, func(acc *dtAcc, lo, hi int) {
 		for i := lo; i < hi; i++ {
+			// the ends of the day (where the 1/300 s types round up into
+			// the next day; the minute types have nothing to round)
+			for _, ns := range dtDayEndNs {
+				for _, vr := range sdVars {
+					visit(acc, vr, &dtVal{K: dkTime, Day: sdDays[i], Ns: ns}, true)
+				}
+			}
 			for m := int64(0); m < 1440; m++ {
 				for _, vr := range sdVars {
 					visit(acc, vr, &dtVal{K: dkTime, Day: sdDays[i], Ns: m * 60000000000}, m%97 == 0)
